@@ -133,3 +133,671 @@ theorem batch_foldl (n : ℕ) (bs : List (List Col)) :
   rw [batch_foldl_getD n _ bs _ (by simp) u hu, getD_replicate_zero, zero_add, batch_sum n bs u hu]
 
 end Ds.Kernel
+
+namespace Ds.Util
+
+/-! ### Basic facts: `ind`, `mean`, indexing -/
+
+theorem ind_true : ind true = 1 := rfl
+theorem ind_false : ind false = 0 := rfl
+
+theorem ind_beq_comm (a b : Int) : ind (a == b) = ind (b == a) := by
+  rw [Bool.beq_comm]
+
+theorem ind_eq_ite (a b : Int) : ind (a == b) = if a = b then 1 else 0 := by
+  unfold ind
+  by_cases h : a = b <;> simp [h]
+
+theorem mean_def (l : List ℚ) : mean l = l.sum / (l.length : ℚ) := rfl
+
+/-- a function of the pair (validation label, prediction) tabulated over the index range is the map
+over the zipped lists -/
+theorem range_map_zip {β : Type} (ys pred : List Int) (F : Int → Int → β) (h : pred.length = ys.length) :
+    (List.range ys.length).map (fun j => F (ys.getD j 0) (pred.getD j 0))
+      = (ys.zip pred).map (fun q => F q.1 q.2) := by
+  apply List.ext_getElem
+  · simp [h]
+  · intro i h1 h2
+    simp only [List.length_map, List.length_range] at h1
+    have h3 : i < pred.length := by omega
+    simp [List.getD_eq_getElem?_getD, List.getElem?_eq_getElem h1, List.getElem?_eq_getElem h3]
+
+theorem sum_map_ind {β : Type} (l : List β) (q : β → Bool) :
+    (l.map (fun x => ind (q x))).sum = ((l.filter q).length : ℚ) := by
+  induction l with
+  | nil => simp
+  | cons x l ih =>
+    simp only [List.map_cons, List.sum_cons, ih, List.filter_cons]
+    cases q x <;> simp [ind]
+    ring
+
+theorem sum_ind_eq_count (ys : List Int) (c : Int) :
+    (ys.map (fun y => ind (y == c))).sum = (count ys c : ℚ) := by
+  rw [sum_map_ind]; rfl
+
+/-! ### C14a: accuracy -/
+
+theorem accElem_length (classes yTest : List Int) : (accElem classes yTest).length = classes.length := by
+  simp [accElem]
+
+/-- entry `[c][j]` of the element-wise accuracy table -/
+theorem accElem_getD (classes yTest : List Int) (c j : ℕ) (hc : c < classes.length) (hj : j < yTest.length) :
+    ((accElem classes yTest).getD c []).getD j 0 = ind (classes.getD c 0 == yTest.getD j 0) := by
+  simp [accElem, List.getD_eq_getElem?_getD, List.getElem?_eq_getElem hc, List.getElem?_eq_getElem hj]
+
+theorem getD_idxOf_int {l : List Int} {x : Int} (h : x ∈ l) : l.getD (l.idxOf x) 0 = x := by
+  have h' := List.idxOf_lt_length_iff.mpr h
+  simp [List.getD_eq_getElem?_getD, List.getElem?_eq_getElem h']
+
+/-- the row of the accuracy table selected by a predicted label, read at point `j` -/
+theorem accElem_pred (classes yTest : List Int) (p : Int) (j : ℕ) (hp : p ∈ classes) (hj : j < yTest.length) :
+    ((accElem classes yTest).getD (classes.idxOf p) []).getD j 0 = ind (yTest.getD j 0 == p) := by
+  rw [accElem_getD _ _ _ _ (List.idxOf_lt_length_iff.mpr hp) hj, getD_idxOf_int hp, ind_beq_comm]
+
+theorem getD_mem_int (l : List Int) {k : ℕ} (hk : k < l.length) : l.getD k 0 ∈ l := by
+  simp only [List.getD_eq_getElem?_getD, List.getElem?_eq_getElem hk, Option.getD_some]
+  exact List.getElem_mem hk
+
+theorem acc_select_eq (classes yTest pred : List Int) (hlen : pred.length = yTest.length)
+    (hmem : ∀ p ∈ pred, p ∈ classes) :
+    (List.range yTest.length).map
+        (fun j => ((accElem classes yTest).getD (classes.idxOf (pred.getD j 0)) []).getD j 0)
+      = (yTest.zip pred).map (fun p => ind (p.1 == p.2)) := by
+  rw [← range_map_zip yTest pred (fun y p => ind (y == p)) hlen]
+  apply List.map_congr_left
+  intro j hj
+  have hj' := List.mem_range.mp hj
+  exact accElem_pred classes yTest _ j (hmem _ (getD_mem_int pred (by omega))) hj'
+
+/-! ### C14b: the null score of the accuracy utility -/
+
+/-- accuracy of predicting the constant `x` = mean of the indicator `y == x` -/
+theorem zip_const_map (yTest : List Int) (x : Int) :
+    (yTest.zip (yTest.map (fun _ => x))).map (fun p => ind (p.1 == p.2)) = yTest.map (fun y => ind (y == x)) := by
+  induction yTest with
+  | nil => rfl
+  | cons y ys ih => simp only [List.map_cons, List.zip_cons_cons, ih]
+
+theorem accuracy_const (yTest : List Int) (x : Int) :
+    accuracy yTest (yTest.map (fun _ => x)) = mean (yTest.map (fun y => ind (y == x))) := by
+  unfold accuracy
+  rw [zip_const_map]
+
+/-- the loop body of `elementwise_null_score`: keep the first strict minimum of `f`, carrying `g` -/
+def argStep {β : Type} (f : Int → ℚ) (g : Int → β) (st : Option ℚ × β) (x : Int) : Option ℚ × β :=
+  match st.1 with
+  | none => (some (f x), g x)
+  | some m => if m > f x then (some (f x), g x) else st
+
+theorem accNullElem_eq_fold (classes yTest : List Int) :
+    accNullElem classes yTest
+      = (classes.foldl (argStep (fun x => mean (yTest.map (fun y => ind (y == x))))
+            (fun x => yTest.map (fun y => ind (y == x)))) (none, yTest.map (fun _ => (0 : ℚ)))).2 := rfl
+
+/-- the fold returns the FIRST element (in list order) at which `f` is minimal -/
+theorem argFold_spec {β : Type} (f : Int → ℚ) (g : Int → β) (d : β) (c0 : Int) (t : List Int) :
+    ∃ pre c post, c0 :: t = pre ++ c :: post ∧ (∀ x ∈ pre, f c < f x) ∧ (∀ x ∈ post, f c ≤ f x) ∧
+      (c0 :: t).foldl (argStep f g) (none, d) = (some (f c), g c) := by
+  induction t using List.reverseRecOn with
+  | nil => exact ⟨[], c0, [], rfl, by simp, by simp, rfl⟩
+  | append_singleton t x ih =>
+    obtain ⟨pre, c, post, hsplit, hpre, hpost, hfold⟩ := ih
+    have hf : (c0 :: (t ++ [x])).foldl (argStep f g) (none, d) = argStep f g (some (f c), g c) x := by
+      rw [← List.cons_append, List.foldl_append, hfold]; rfl
+    by_cases hlt : f c > f x
+    · refine ⟨c0 :: t, x, [], by simp, ?_, by simp, ?_⟩
+      · intro y hy
+        rw [hsplit] at hy
+        rcases List.mem_append.mp hy with h | h
+        · exact lt_trans hlt (hpre y h)
+        · rcases List.mem_cons.mp h with h | h
+          · rw [h]; exact hlt
+          · exact lt_of_lt_of_le hlt (hpost y h)
+      · rw [hf]; simp only [argStep, if_pos hlt]
+    · refine ⟨pre, c, post ++ [x], ?_, hpre, ?_, ?_⟩
+      · rw [← List.cons_append, hsplit]; simp
+      · intro y hy
+        rcases List.mem_append.mp hy with h | h
+        · exact hpost y h
+        · rw [List.mem_singleton.mp h]; exact not_lt.mp hlt
+      · rw [hf]; simp only [argStep, if_neg hlt]
+
+theorem foldl_min_le (ss : List ℚ) (s : ℚ) : ∀ x ∈ s :: ss, ss.foldl min s ≤ x := by
+  induction ss generalizing s with
+  | nil => intro x hx; simp at hx; simp [hx]
+  | cons y ss ih =>
+    intro x hx
+    simp only [List.foldl_cons]
+    rcases List.mem_cons.mp hx with h | h
+    · exact le_trans (ih (min s y) _ List.mem_cons_self) (h ▸ min_le_left _ _)
+    · rcases List.mem_cons.mp h with h | h
+      · exact le_trans (ih (min s y) _ List.mem_cons_self) (h ▸ min_le_right _ _)
+      · exact ih (min s y) x (List.mem_cons_of_mem _ h)
+
+theorem foldl_min_mem (ss : List ℚ) (s : ℚ) : ss.foldl min s ∈ s :: ss := by
+  induction ss generalizing s with
+  | nil => simp
+  | cons y ss ih =>
+    simp only [List.foldl_cons]
+    rcases List.mem_cons.mp (ih (min s y)) with h | h
+    · rw [h]
+      rcases min_choice s y with h' | h' <;> rw [h'] <;> simp
+    · exact List.mem_cons_of_mem _ (List.mem_cons_of_mem _ h)
+
+/-- a list minimum is determined by "lower bound + member" -/
+theorem foldl_min_eq (ss : List ℚ) (s m : ℚ) (hm : m ∈ s :: ss) (hle : ∀ x ∈ s :: ss, m ≤ x) :
+    ss.foldl min s = m :=
+  le_antisymm (foldl_min_le ss s m hm) (hle _ (foldl_min_mem ss s))
+
+/-! ### C14c/d: the ROC-AUC utility on binary labels -/
+
+theorem count_cons (y : Int) (ys : List Int) (c : Int) :
+    count (y :: ys) c = (if y = c then 1 else 0) + count ys c := by
+  unfold count
+  by_cases h : y = c
+  · simp [h]; omega
+  · simp [h]
+
+theorem count_pos_iff (ys : List Int) (c : Int) : 0 < count ys c ↔ c ∈ ys := by
+  unfold count
+  rw [List.length_pos_iff_exists_mem]
+  constructor
+  · rintro ⟨x, hx⟩
+    have := List.mem_filter.mp hx
+    have h2 : x = c := by simpa using this.2
+    exact h2 ▸ this.1
+  · intro h
+    exact ⟨c, List.mem_filter.mpr ⟨h, by simp⟩⟩
+
+/-- binary labels: the two class counts add up to the number of points -/
+theorem count_add (ys : List Int) (a b : Int) (hab : a ≠ b) (hy : ∀ y ∈ ys, y = a ∨ y = b) :
+    count ys a + count ys b = ys.length := by
+  induction ys with
+  | nil => rfl
+  | cons y ys ih =>
+    have ih' := ih (fun z hz => hy z (List.mem_cons_of_mem _ hz))
+    rw [count_cons, count_cons, List.length_cons]
+    rcases hy y List.mem_cons_self with h | h
+    · subst h; rw [if_pos rfl, if_neg hab]; omega
+    · subst h; rw [if_neg (Ne.symm hab), if_pos rfl]; omega
+
+/-- one cell of the element-wise AUC table, as the code computes it -/
+def aucCell (ys cls : List Int) (k y : Int) : ℚ :=
+  (cls.map (fun c =>
+      (ind (k == y) * ind (c == y) / ((count ys c : ℕ) : ℚ)
+        + ind (k == y) * ind (c != y) / (((ys.length - count ys c : ℕ) : ℕ) : ℚ)) * (1 / 2))).sum
+    / ((cls.length : ℕ) : ℚ)
+
+theorem aucElem_eq (classes yTest : List Int) :
+    aucElem classes yTest
+      = if classes.any (fun c => count yTest c == 0 || count yTest c == yTest.length) then none
+        else some (classes.map (fun k => yTest.map (fun y => aucCell yTest classes k y))) := rfl
+
+theorem aucCell_perm (ys : List Int) {cls cls' : List Int} (h : cls.Perm cls') (k y : Int) :
+    aucCell ys cls k y = aucCell ys cls' k y := by
+  unfold aucCell
+  rw [(h.map _).sum_eq, h.length_eq]
+
+/-- binary case: the cell is `[k = y] / (2 · #{j : y_j = y})` -/
+theorem aucCell_binary (ys : List Int) (a b : Int) (hab : a ≠ b) (hy : ∀ y ∈ ys, y = a ∨ y = b)
+    (ha : a ∈ ys) (hb : b ∈ ys) (k y : Int) (hyy : y ∈ ys) :
+    aucCell ys [a, b] k y = ind (k == y) / (2 * (count ys y : ℚ)) := by
+  have hsum := count_add ys a b hab hy
+  have hpa : 0 < count ys a := (count_pos_iff ys a).mpr ha
+  have hpb : 0 < count ys b := (count_pos_iff ys b).mpr hb
+  have hqa : ys.length - count ys a = count ys b := by omega
+  have hqb : ys.length - count ys b = count ys a := by omega
+  have hpa' : (count ys a : ℚ) ≠ 0 := by exact_mod_cast hpa.ne'
+  have hpb' : (count ys b : ℚ) ≠ 0 := by exact_mod_cast hpb.ne'
+  have hba : b ≠ a := Ne.symm hab
+  unfold aucCell
+  simp only [List.map_cons, List.map_nil, List.sum_cons, List.sum_nil, List.length_cons, List.length_nil]
+  rw [hqa, hqb]
+  rcases hy y hyy with h | h
+  · subst h
+    simp [ind, hba]
+    field_simp
+  · subst h
+    simp [ind, hab]
+    field_simp
+
+/-- the row of the binary AUC table belonging to the predicted label `p` -/
+def aucRow (ys : List Int) (p : Int) : List ℚ := ys.map (fun y => ind (p == y) / (2 * (count ys y : ℚ)))
+
+theorem aucElem_binary (ys : List Int) (a b : Int) (hab : a ≠ b) (hy : ∀ y ∈ ys, y = a ∨ y = b)
+    (ha : a ∈ ys) (hb : b ∈ ys) :
+    aucElem [a, b] ys = some [aucRow ys a, aucRow ys b] := by
+  have hsum := count_add ys a b hab hy
+  have hpa : 0 < count ys a := (count_pos_iff ys a).mpr ha
+  have hpb : 0 < count ys b := (count_pos_iff ys b).mpr hb
+  rw [aucElem_eq]
+  have hcond : ([a, b].any (fun c => count ys c == 0 || count ys c == ys.length)) = false := by
+    simp only [List.any_cons, List.any_nil, Bool.or_false, Bool.or_eq_false_iff, beq_eq_false_iff_ne, ne_eq]
+    omega
+  rw [hcond]
+  have e1 : ys.map (fun y => aucCell ys [a, b] a y) = aucRow ys a :=
+    List.map_congr_left (fun y hyy => aucCell_binary ys a b hab hy ha hb a y hyy)
+  have e2 : ys.map (fun y => aucCell ys [a, b] b y) = aucRow ys b :=
+    List.map_congr_left (fun y hyy => aucCell_binary ys a b hab hy ha hb b y hyy)
+  simp only [Bool.false_eq_true, if_false, List.map_cons, List.map_nil]
+  rw [e1, e2]
+
+theorem aucRow_select (ys : List Int) (a b : Int) (hab : a ≠ b) (p : Int) (hp : p = a ∨ p = b) :
+    [aucRow ys a, aucRow ys b].getD ([a, b].idxOf p) [] = aucRow ys p := by
+  rcases hp with h | h
+  · subst h; simp
+  · subst h; simp [List.idxOf_cons_ne _ hab]
+
+theorem aucRow_getD (ys : List Int) (p : Int) (j : ℕ) (hj : j < ys.length) :
+    (aucRow ys p).getD j 0 = ind (p == ys.getD j 0) / (2 * (count ys (ys.getD j 0) : ℚ)) := by
+  simp [aucRow, List.getD_eq_getElem?_getD, List.getElem?_eq_getElem hj]
+
+/-- the sum, over the validation points, of the table entry selected by the prediction -/
+theorem auc_select_eq (ys pred : List Int) (a b : Int) (hab : a ≠ b) (hlen : pred.length = ys.length)
+    (hp : ∀ p ∈ pred, p = a ∨ p = b) :
+    (List.range ys.length).map
+        (fun j => ([aucRow ys a, aucRow ys b].getD ([a, b].idxOf (pred.getD j 0)) []).getD j 0)
+      = (ys.zip pred).map (fun q => ind (q.2 == q.1) / (2 * (count ys q.1 : ℚ))) := by
+  rw [← range_map_zip ys pred (fun y p => ind (p == y) / (2 * (count ys y : ℚ))) hlen]
+  apply List.map_congr_left
+  intro j hj
+  have hj' := List.mem_range.mp hj
+  rw [aucRow_select ys a b hab _ (hp _ (getD_mem_int pred (by omega))), aucRow_getD _ _ _ hj']
+
+theorem list_sum_map_add {β : Type} (l : List β) (f g : β → ℚ) :
+    (l.map (fun x => f x + g x)).sum = (l.map f).sum + (l.map g).sum := by
+  induction l with
+  | nil => simp
+  | cons x l ih => simp only [List.map_cons, List.sum_cons, ih]; ring
+
+theorem list_sum_map_mul_right {β : Type} (l : List β) (f : β → ℚ) (c : ℚ) :
+    (l.map (fun x => f x * c)).sum = (l.map f).sum * c := by
+  induction l with
+  | nil => simp
+  | cons x l ih => simp only [List.map_cons, List.sum_cons, ih]; ring
+
+/-- hard predictions on binary labels: the selected entries add up to `(TP/P + TN/N)/2`, where `pos`
+is either of the two classes and `neg` the other -/
+theorem auc_sum_eq (ys pred : List Int) (pos neg : Int) (hpn : pos ≠ neg) (hy : ∀ y ∈ ys, y = pos ∨ y = neg)
+    (hpos : pos ∈ ys) (hneg : neg ∈ ys) (hp : ∀ p ∈ pred, p = pos ∨ p = neg) :
+    aucHard pos ys pred
+      = some (((ys.zip pred).map (fun q => ind (q.2 == q.1) / (2 * (count ys q.1 : ℚ)))).sum) := by
+  have hsum := count_add ys pos neg hpn hy
+  have hP : 0 < count ys pos := (count_pos_iff ys pos).mpr hpos
+  have hN : 0 < count ys neg := (count_pos_iff ys neg).mpr hneg
+  have hN' : ys.length - count ys pos = count ys neg := by omega
+  have hPq : (count ys pos : ℚ) ≠ 0 := by exact_mod_cast hP.ne'
+  have hNq : (count ys neg : ℚ) ≠ 0 := by exact_mod_cast hN.ne'
+  unfold aucHard
+  simp only [hN']
+  have hcond : (count ys pos == 0 || count ys neg == 0) = false := by
+    simp only [Bool.or_eq_false_iff, beq_eq_false_iff_ne, ne_eq]; omega
+  rw [hcond]
+  simp only [Bool.false_eq_true, if_false, Option.some.injEq]
+  rw [← sum_map_ind, ← sum_map_ind]
+  have hcell : ∀ q ∈ ys.zip pred,
+      ind (q.2 == q.1) / (2 * (count ys q.1 : ℚ))
+        = ind (q.1 == pos && q.2 == pos) * (1 / (count ys pos : ℚ) / 2)
+          + ind (q.1 != pos && q.2 != pos) * (1 / (count ys neg : ℚ) / 2) := by
+    intro q hq
+    have h1 := hy _ (List.of_mem_zip hq).1
+    have h2 := hp _ (List.of_mem_zip hq).2
+    have hnp : neg ≠ pos := Ne.symm hpn
+    rcases h1 with h1 | h1 <;> rcases h2 with h2 | h2 <;> rw [h1, h2] <;> simp [ind, hpn, hnp] <;> field_simp
+  rw [List.map_congr_left hcell, list_sum_map_add, list_sum_map_mul_right, list_sum_map_mul_right]
+  ring
+
+/-! ### `np.unique` -/
+
+theorem nodup_eraseDups (l : List Int) : l.eraseDups.Nodup := by
+  induction h : l.length using Nat.strong_induction_on generalizing l with
+  | _ n ih =>
+    cases l with
+    | nil => simp
+    | cons a as =>
+      rw [List.eraseDups_cons, List.nodup_cons]
+      refine ⟨?_, ?_⟩
+      · rw [List.mem_eraseDups, List.mem_filter]
+        simp
+      · apply ih (as.filter (fun b => !b == a)).length _ _ rfl
+        rw [← h, List.length_cons]
+        exact Nat.lt_succ_of_le (List.length_filter_le _ _)
+
+theorem mem_unique (ys : List Int) (c : Int) : c ∈ unique ys ↔ c ∈ ys := by
+  unfold unique
+  rw [List.mem_eraseDups, List.mem_mergeSort]
+
+theorem nodup_unique (ys : List Int) : (unique ys).Nodup := nodup_eraseDups _
+
+/-- binary labels: `unique` is a permutation of the two classes -/
+theorem unique_perm_pair (ys : List Int) (a b : Int) (hab : a ≠ b) (hy : ∀ y ∈ ys, y = a ∨ y = b)
+    (ha : a ∈ ys) (hb : b ∈ ys) : (unique ys).Perm [a, b] := by
+  apply (List.perm_ext_iff_of_nodup (nodup_unique ys) (by simp [hab])).mpr
+  intro c
+  rw [mem_unique]
+  constructor
+  · intro h; rcases hy c h with h | h <;> simp [h]
+  · intro h
+    simp only [List.mem_cons, List.not_mem_nil, or_false] at h
+    rcases h with h | h <;> rw [h] <;> assumption
+
+theorem aucNullElem_eq (yTest : List Int) :
+    aucNullElem yTest
+      = if (unique yTest).any (fun c => count yTest c == yTest.length) || (unique yTest).isEmpty then none
+        else some (yTest.map (fun y => aucCell yTest (unique yTest)
+          ((unique yTest).getD (((unique yTest).map (count yTest)).idxOf
+            (((unique yTest).map (count yTest)).foldl min (((unique yTest).map (count yTest)).headD 0))) 0) y)) := rfl
+
+theorem foldl_min_mem_nat (ss : List ℕ) (s : ℕ) : ss.foldl min s ∈ s :: ss := by
+  induction ss generalizing s with
+  | nil => simp
+  | cons y ss ih =>
+    simp only [List.foldl_cons]
+    rcases List.mem_cons.mp (ih (min s y)) with h | h
+    · rw [h]
+      rcases min_choice s y with h' | h' <;> rw [h'] <;> simp
+    · exact List.mem_cons_of_mem _ (List.mem_cons_of_mem _ h)
+
+/-- the least frequent class chosen by `elementwise_null_score` is one of the classes -/
+theorem leastFrequent_mem (cls : List Int) (f : Int → ℕ) (hne : cls ≠ []) :
+    cls.getD ((cls.map f).idxOf ((cls.map f).foldl min ((cls.map f).headD 0))) 0 ∈ cls := by
+  cases cls with
+  | nil => exact absurd rfl hne
+  | cons c cs =>
+    have hm : (List.map f (c :: cs)).foldl min ((List.map f (c :: cs)).headD 0) ∈ List.map f (c :: cs) := by
+      simp only [List.map_cons, List.headD_cons, List.foldl_cons, min_self]
+      exact foldl_min_mem_nat _ _
+    have hlt := List.idxOf_lt_length_iff.mpr hm
+    rw [List.length_map] at hlt
+    exact getD_mem_int _ hlt
+
+/-- the row of a present label adds up to one half -/
+theorem aucRow_sum (ys : List Int) (p : Int) (hp : p ∈ ys) : (aucRow ys p).sum = 1 / 2 := by
+  have hP : 0 < count ys p := (count_pos_iff ys p).mpr hp
+  have hPq : (count ys p : ℚ) ≠ 0 := by exact_mod_cast hP.ne'
+  have hcell : ∀ y ∈ ys, ind (p == y) / (2 * (count ys y : ℚ)) = ind (y == p) * (1 / (2 * (count ys p : ℚ))) := by
+    intro y _
+    by_cases h : p = y
+    · subst h; simp [ind]
+    · have h' : ¬ y = p := fun e => h e.symm
+      simp [ind, h, h']
+  unfold aucRow
+  rw [List.map_congr_left hcell, list_sum_map_mul_right, sum_ind_eq_count]
+  field_simp
+
+theorem aucNullElem_binary (ys : List Int) (a b : Int) (hab : a ≠ b) (hy : ∀ y ∈ ys, y = a ∨ y = b)
+    (ha : a ∈ ys) (hb : b ∈ ys) :
+    ∃ lf, (lf = a ∨ lf = b) ∧ aucNullElem ys = some (aucRow ys lf) := by
+  have hperm := unique_perm_pair ys a b hab hy ha hb
+  have hsum := count_add ys a b hab hy
+  have hpa : 0 < count ys a := (count_pos_iff ys a).mpr ha
+  have hpb : 0 < count ys b := (count_pos_iff ys b).mpr hb
+  have hne : unique ys ≠ [] := by
+    intro h; rw [h] at hperm; simpa using hperm.length_eq
+  have hcond : ((unique ys).any (fun c => count ys c == ys.length) || (unique ys).isEmpty) = false := by
+    rw [Bool.or_eq_false_iff]
+    refine ⟨?_, ?_⟩
+    · rw [List.any_eq_false]
+      intro c hc
+      have : c = a ∨ c = b := by simpa using hperm.mem_iff.mp hc
+      rcases this with h | h <;> subst h <;> simp <;> omega
+    · cases hu : unique ys with
+      | nil => exact absurd hu hne
+      | cons _ _ => rfl
+  have hlf := leastFrequent_mem (unique ys) (count ys) hne
+  refine ⟨(unique ys).getD (((unique ys).map (count ys)).idxOf
+    (((unique ys).map (count ys)).foldl min (((unique ys).map (count ys)).headD 0))) 0, ?_, ?_⟩
+  · have := hperm.mem_iff.mp hlf
+    simpa using this
+  rw [aucNullElem_eq, hcond]
+  simp only [Bool.false_eq_true, if_false, Option.some.injEq]
+  unfold aucRow
+  apply List.map_congr_left
+  intro y hyy
+  rw [aucCell_perm ys hperm, aucCell_binary ys a b hab hy ha hb _ y hyy]
+
+/-! ### C08: `JointUtility` -/
+
+theorem jointScalar_nil_right (ws : List ℚ) : jointScalar ws [] = 0 := by simp [jointScalar]
+theorem jointScalar_nil_left (xs : List ℚ) : jointScalar [] xs = 0 := by simp [jointScalar]
+theorem jointScalar_cons (w x : ℚ) (ws xs : List ℚ) :
+    jointScalar (w :: ws) (x :: xs) = w * x + jointScalar ws xs := by simp [jointScalar]
+
+/-- `jointScalar` is the (truncating) dot product `Σ_k ws[k]·xs[k]` -/
+theorem jointScalar_eq_sum (ws xs : List ℚ) :
+    jointScalar ws xs = ∑ k ∈ Finset.range (min ws.length xs.length), ws.getD k 0 * xs.getD k 0 := by
+  induction ws generalizing xs with
+  | nil => simp [jointScalar_nil_left]
+  | cons w ws ih =>
+    cases xs with
+    | nil => simp [jointScalar_nil_right]
+    | cons x xs =>
+      rw [jointScalar_cons, ih, List.length_cons, List.length_cons, Nat.succ_min_succ, Finset.sum_range_succ']
+      simp [add_comm]
+
+theorem jointScalar_smul (c : ℚ) (ws xs : List ℚ) : jointScalar ws (xs.map (c * ·)) = c * jointScalar ws xs := by
+  induction ws generalizing xs with
+  | nil => simp [jointScalar_nil_left]
+  | cons w ws ih =>
+    cases xs with
+    | nil => simp [jointScalar_nil_right]
+    | cons x xs => rw [List.map_cons, jointScalar_cons, jointScalar_cons, ih]; ring
+
+theorem jointScalar_lin (a b : ℚ) (ws xs ys : List ℚ) (h : xs.length = ys.length) :
+    jointScalar ws (List.zipWith (fun x y => a * x + b * y) xs ys) = a * jointScalar ws xs + b * jointScalar ws ys := by
+  induction ws generalizing xs ys with
+  | nil => simp [jointScalar_nil_left]
+  | cons w ws ih =>
+    cases xs with
+    | nil =>
+      cases ys with
+      | nil => simp [jointScalar_nil_right]
+      | cons _ _ => simp at h
+    | cons x xs =>
+      cases ys with
+      | nil => simp at h
+      | cons y ys =>
+        rw [List.zipWith_cons_cons, jointScalar_cons, jointScalar_cons, jointScalar_cons, ih xs ys (by simpa using h)]
+        ring
+
+theorem jointScalar_add (ws xs ys : List ℚ) (h : xs.length = ys.length) :
+    jointScalar ws (List.zipWith (· + ·) xs ys) = jointScalar ws xs + jointScalar ws ys := by
+  have := jointScalar_lin 1 1 ws xs ys h
+  simpa using this
+
+/-- also linear in the weights -/
+theorem jointScalar_smul_left (c : ℚ) (ws xs : List ℚ) : jointScalar (ws.map (c * ·)) xs = c * jointScalar ws xs := by
+  induction ws generalizing xs with
+  | nil => simp [jointScalar_nil_left]
+  | cons w ws ih =>
+    cases xs with
+    | nil => simp [jointScalar_nil_right]
+    | cons x xs => rw [List.map_cons, jointScalar_cons, jointScalar_cons, ih]; ring
+
+/-- entry `[c][j]` of `JointUtility.elementwise_score` (indices inside the shape of the first component) -/
+theorem jointElem_getD (ws : List ℚ) (m0 : List (List ℚ)) (ms : List (List (List ℚ))) (c j : ℕ)
+    (hc : c < m0.length) (hj : j < (m0.getD c []).length) :
+    ((jointElem ws (m0 :: ms)).getD c []).getD j 0
+      = jointScalar ws ((m0 :: ms).map (fun m => (m.getD c []).getD j 0)) := by
+  simp [jointElem, List.getD_eq_getElem?_getD, List.getElem?_eq_getElem hc] at hj ⊢
+  simp [hc, hj]
+
+theorem jointCall_some (ws xs : List ℚ) (null : ℚ) : jointCall ws (xs.map some) null = jointScalar ws xs := by
+  unfold jointCall
+  have h : (xs.map some).any Option.isNone = false := by
+    rw [List.any_eq_false]; intro x hx
+    obtain ⟨y, _, rfl⟩ := List.mem_map.mp hx
+    simp
+  rw [h]
+  simp [List.map_map, Function.comp_def]
+
+theorem jointCall_none (ws : List ℚ) (rs : List (Option ℚ)) (null : ℚ) (h : none ∈ rs) :
+    jointCall ws rs null = null := by
+  unfold jointCall
+  have : rs.any Option.isNone = true := List.any_eq_true.mpr ⟨none, h, rfl⟩
+  rw [this]; rfl
+
+/-! composition with the kernel -/
+
+/-- the per-point utility columns the kernel receives, built from a `[class][point]` table exactly as
+`mapfork` does: `(List.range nb).map (fun j => column util j 0)` -/
+def colsOf (nb : ℕ) (m : List (List ℚ)) : List (List ℚ) :=
+  (List.range nb).map (fun j => Ds.Neighbor.column m j 0)
+
+/-- `Σ_k ws[k]·ms[k]` as a `C × nb` table (also defined, as the zero table, for `ms = []`) -/
+def combTable (C nb : ℕ) (ws : List ℚ) (ms : List (List (List ℚ))) : List (List ℚ) :=
+  (List.range C).map (fun c => (List.range nb).map (fun j =>
+    jointScalar ws (ms.map (fun m => (m.getD c []).getD j 0))))
+
+/-- `Σ_k ws[k]·vs[k]` as a vector of length `n` -/
+def combVec (n : ℕ) (ws : List ℚ) (vs : List (List ℚ)) : List ℚ :=
+  (List.range n).map (fun u => jointScalar ws (vs.map (·.getD u 0)))
+
+theorem combVec_length (n : ℕ) (ws : List ℚ) (vs : List (List ℚ)) : (combVec n ws vs).length = n := by
+  simp [combVec]
+
+theorem colsOf_length (nb : ℕ) (m : List (List ℚ)) : (colsOf nb m).length = nb := by simp [colsOf]
+
+theorem colsOf_getD_length (nb : ℕ) (m : List (List ℚ)) (j : ℕ) :
+    ((colsOf nb m).getD j []).length = if j < nb then m.length else 0 := by
+  by_cases h : j < nb
+  · simp [colsOf, Ds.Neighbor.column, List.getD_eq_getElem?_getD, h]
+  · simp [colsOf, List.getD_eq_getElem?_getD, h]
+
+theorem combTable_length (C nb : ℕ) (ws : List ℚ) (ms : List (List (List ℚ))) :
+    (combTable C nb ws ms).length = C := by simp [combTable]
+
+/-- on tables of the common shape `C × nb`, `jointElem` is `combTable` -/
+theorem jointElem_eq_combTable (C nb : ℕ) (ws : List ℚ) (m0 : List (List ℚ)) (ms : List (List (List ℚ)))
+    (hC : m0.length = C) (hrow : ∀ row ∈ m0, row.length = nb) :
+    jointElem ws (m0 :: ms) = combTable C nb ws (m0 :: ms) := by
+  unfold jointElem combTable
+  simp only [hC]
+  apply List.map_congr_left
+  intro c hc
+  have hc' : c < m0.length := by rw [hC]; exact List.mem_range.mp hc
+  have : (m0.getD c []).length = nb := by
+    apply hrow
+    simp only [List.getD_eq_getElem?_getD, List.getElem?_eq_getElem hc', Option.getD_some]
+    exact List.getElem_mem hc'
+  rw [this]
+
+theorem combVec_cons (n : ℕ) (w : ℚ) (ws : List ℚ) (v : List ℚ) (vs : List (List ℚ)) (hv : v.length = n) :
+    combVec n (w :: ws) (v :: vs) = List.zipWith (Ds.Kernel.lin w 1) v (combVec n ws vs) := by
+  apply List.ext_getElem
+  · simp [combVec, hv]
+  · intro u h1 h2
+    simp only [combVec, List.length_map, List.length_range] at h1
+    have h3 : u < v.length := by omega
+    simp [combVec, jointScalar_cons, Ds.Kernel.lin, List.getD_eq_getElem?_getD, List.getElem?_eq_getElem h3]
+
+theorem colsOf_combTable_cons (C nb : ℕ) (w : ℚ) (ws : List ℚ) (m : List (List ℚ)) (ms : List (List (List ℚ)))
+    (hC : m.length = C) :
+    colsOf nb (combTable C nb (w :: ws) (m :: ms))
+      = List.zipWith (List.zipWith (Ds.Kernel.lin w 1)) (colsOf nb m) (colsOf nb (combTable C nb ws ms)) := by
+  apply List.ext_getElem
+  · simp [colsOf]
+  · intro j h1 h2
+    simp only [colsOf, List.length_map, List.length_range] at h1
+    simp only [colsOf, List.getElem_map, List.getElem_range, List.getElem_zipWith, Ds.Neighbor.column]
+    apply List.ext_getElem
+    · simp [combTable, hC]
+    · intro c h3 h4
+      simp only [combTable, List.length_map, List.length_range] at h3
+      have h5 : c < m.length := by omega
+      simp [combTable, jointScalar_cons, Ds.Kernel.lin, List.getD_eq_getElem?_getD, h1,
+        List.getElem?_eq_getElem h5]
+
+theorem zipWith_lin_zero (l : List ℚ) (h : ∀ x ∈ l, x = 0) : List.zipWith (Ds.Kernel.lin 0 0) l l = l := by
+  induction l with
+  | nil => rfl
+  | cons x l ih =>
+    rw [List.zipWith_cons_cons, ih (fun y hy => h y (List.mem_cons_of_mem _ hy)), h x List.mem_cons_self]
+    simp [Ds.Kernel.lin]
+
+theorem zipWith_zipWith_lin_zero (U : List (List ℚ)) (h : ∀ l ∈ U, ∀ x ∈ l, x = 0) :
+    List.zipWith (List.zipWith (Ds.Kernel.lin 0 0)) U U = U := by
+  induction U with
+  | nil => rfl
+  | cons l U ih =>
+    rw [List.zipWith_cons_cons, ih (fun y hy => h y (List.mem_cons_of_mem _ hy)),
+      zipWith_lin_zero l (h l List.mem_cons_self)]
+
+/-- all-zero utilities and null scores give all-zero importances -/
+theorem importances_zero (n : ℕ) (labels orders : List (List ℕ)) (utils : List (List ℚ)) (nulls : List ℚ)
+    (hU : ∀ l ∈ utils, ∀ x ∈ l, x = 0) (hN : ∀ x ∈ nulls, x = 0) :
+    Ds.Kernel.importances n labels orders utils nulls = List.replicate n 0 := by
+  have h := Ds.Kernel.importances_lin n 0 0 labels orders utils utils nulls nulls rfl (fun _ => rfl) rfl
+  rw [zipWith_zipWith_lin_zero utils hU, zipWith_lin_zero nulls hN] at h
+  apply Ds.Kernel.ext_getD (Ds.Kernel.importances_length _ _ _ _ _) (by simp)
+  intro u hu
+  rw [h, Ds.Kernel.getD_replicate_zero]
+  have e := Ds.Kernel.getD_zipWith (Ds.Kernel.lin 0 0) (Ds.Kernel.importances n labels orders utils nulls)
+    (Ds.Kernel.importances n labels orders utils nulls) 0 0 u rfl
+  simp only [Ds.Kernel.lin, zero_mul, add_zero] at e ⊢
+  exact e
+
+theorem combVec_nil (n : ℕ) (ws : List ℚ) : combVec n ws [] = List.replicate n 0 := by
+  apply List.ext_getElem
+  · simp [combVec]
+  · intro u h1 h2
+    simp [combVec, jointScalar_nil_right]
+
+/-- **linearity of the kernel in any number of weighted components** (tables of a common shape) -/
+theorem importances_comb (n C nb : ℕ) (labels orders : List (List ℕ)) (ws : List ℚ)
+    (ms : List (List (List ℚ))) (Ns : List (List ℚ))
+    (hw : ws.length = ms.length) (hN : Ns.length = ms.length)
+    (hshape : ∀ m ∈ ms, m.length = C) (hNs : ∀ N ∈ Ns, N.length = nb) :
+    Ds.Kernel.importances n labels orders (colsOf nb (combTable C nb ws ms)) (combVec nb ws Ns)
+      = combVec n ws (List.zipWith (fun m N => Ds.Kernel.importances n labels orders (colsOf nb m) N) ms Ns) := by
+  induction ms generalizing ws Ns with
+  | nil =>
+    rw [List.zipWith_nil_left, combVec_nil]
+    apply importances_zero
+    · intro l hl x hx
+      simp only [colsOf, Ds.Neighbor.column, combTable, List.map_nil, jointScalar_nil_right, List.mem_map,
+        List.mem_range] at hl
+      obtain ⟨j, _, rfl⟩ := hl
+      simp only [List.map_map, List.mem_map, List.mem_range] at hx
+      obtain ⟨c, _, rfl⟩ := hx
+      simp only [List.map_const', List.length_range]
+      exact Ds.Kernel.getD_replicate_zero nb j
+    · intro x hx
+      have : Ns = [] := List.length_eq_zero_iff.mp (by simpa using hN)
+      subst this
+      rw [combVec_nil] at hx
+      exact (List.mem_replicate.mp hx).2
+  | cons m ms ih =>
+    cases ws with
+    | nil => simp at hw
+    | cons w ws =>
+      cases Ns with
+      | nil => simp at hN
+      | cons N Ns =>
+        have hC : m.length = C := hshape m List.mem_cons_self
+        have hNl : N.length = nb := hNs N List.mem_cons_self
+        rw [colsOf_combTable_cons C nb w ws m ms hC, combVec_cons nb w ws N Ns hNl,
+          Ds.Kernel.importances_lin n w 1 labels orders _ _ _ _ (by rw [colsOf_length, colsOf_length])
+            (by intro j; rw [colsOf_getD_length, colsOf_getD_length, combTable_length, hC])
+            (by rw [hNl, combVec_length]),
+          ih ws Ns (by simpa using hw) (by simpa using hN)
+            (fun m' hm' => hshape m' (List.mem_cons_of_mem _ hm'))
+            (fun N' hN' => hNs N' (List.mem_cons_of_mem _ hN')),
+          List.zipWith_cons_cons, combVec_cons n w ws _ _ (Ds.Kernel.importances_length _ _ _ _ _)]
+
+theorem combVec_getD (n : ℕ) (ws : List ℚ) (vs : List (List ℚ)) (u : ℕ) (hu : u < n) :
+    (combVec n ws vs).getD u 0 = jointScalar ws (vs.map (·.getD u 0)) := by
+  simp [combVec, List.getD_eq_getElem?_getD, hu]
+
+theorem combVec_pair (n : ℕ) (w₁ w₂ : ℚ) (v₁ v₂ : List ℚ) (h₁ : v₁.length = n) (h₂ : v₂.length = n) :
+    combVec n [w₁, w₂] [v₁, v₂] = List.zipWith (fun x y => w₁ * x + w₂ * y) v₁ v₂ := by
+  apply List.ext_getElem
+  · simp [combVec, h₁, h₂]
+  · intro u h1 h2
+    simp only [combVec, List.length_map, List.length_range] at h1
+    have h3 : u < v₁.length := by omega
+    have h4 : u < v₂.length := by omega
+    simp [combVec, jointScalar_cons, jointScalar_nil_left, List.getD_eq_getElem?_getD,
+      List.getElem?_eq_getElem h3, List.getElem?_eq_getElem h4]
+
+end Ds.Util
